@@ -189,5 +189,36 @@ pub fn c10_native_loops_and_chance() {
         }
         cases += 1;
     }
+    // probability 0 NEVER fires and probability 1 ALWAYS fires, whatever the generator draws: degenerate generators whose every
+    // draw is the smallest / the largest possible one (a draw of exactly 0.0 is a 2^-53 event no seeded run will ever show)
+    for p in [0.0, 1.0] {
+        for high in [false, true] {
+            let c = RandomChance::new::<P0>(p);
+            let mut state: State<P0> = State::new();
+            state.insert(if high { Random::with_rng::<ConstRng<{ u64::MAX }>>(0) } else { Random::with_rng::<ConstRng<0>>(0) });
+            for k in 0..50 {
+                let fired = c.evaluate(&P0, &mut state).unwrap();
+                if fired != (p == 1.0) {
+                    eprintln!("COUNTEREXAMPLE RandomChance p={p} with a generator whose every draw is the {} possible one: evaluation {k} gave {fired}", if high { "largest" } else { "smallest" });
+                    panic!("random-chance does not fire with the configured probability");
+                }
+            }
+            cases += 1;
+        }
+    }
     println!("c10_native_loops_and_chance: {} cases checked", cases);
+}
+
+
+/// a generator whose every draw is the constant `V` (all bits)
+pub struct ConstRng<const V: u64>;
+impl<const V: u64> rand::RngCore for ConstRng<V> {
+    fn next_u32(&mut self) -> u32 { V as u32 }
+    fn next_u64(&mut self) -> u64 { V }
+    fn fill_bytes(&mut self, dest: &mut [u8]) { for b in dest.iter_mut() { *b = V as u8; } }
+    fn try_fill_bytes(&mut self, dest: &mut [u8]) -> Result<(), rand::Error> { self.fill_bytes(dest); Ok(()) }
+}
+impl<const V: u64> rand::SeedableRng for ConstRng<V> {
+    type Seed = [u8; 8];
+    fn from_seed(_seed: Self::Seed) -> Self { ConstRng }
 }
